@@ -241,9 +241,17 @@ MemsMin(P, l, t) == {<<ab[1], ab[2] - ab[1]>> : ab \in {x \in Mems(P, t) : x[2] 
 Smems(P, i, l, t) ==
     {<<ab[1], ab[2] - ab[1]>> : ab \in {x \in Mems(P, t) : x[1] <= i /\ i < x[2] /\ x[2] - x[1] >= l}}
 
+\* the serialized private fields <<lower, lower_rev, size, match_size>> agree with forward()/revcomp(),
+\* and match_size is the number of symbols of the string the bi-interval stands for
+SerOK(iv, msz) ==
+    /\ Len(iv.ser) = 4
+    /\ iv.ser[1] = iv.f[1] /\ iv.ser[2] = iv.r[1]
+    /\ iv.ser[3] = iv.f[2] - iv.f[1] /\ iv.ser[3] = iv.r[2] - iv.r[1]
+    /\ iv.ser[4] = msz
 \* one reported match m = [f |-> <<lo,up>>, r |-> <<lo,up>>, a, n, fp, rp] (fp/rp: intervals through the SA)
 MatchOK(P, m, t) ==
     /\ m.n >= 1 /\ m.a >= 0 /\ m.a + m.n <= Len(P)
+    /\ Len(m.f) = 2 /\ Len(m.r) = 2 /\ SerOK(m, m.n)
     /\ LET u == Sub(P, m.a, m.a + m.n) IN
        /\ Len(m.f) = 2 /\ Len(m.r) = 2
        /\ m.f[2] - m.f[1] = Len(m.fp) /\ m.r[2] - m.r[1] = Len(m.rp)
@@ -279,6 +287,7 @@ MemsFast(P, t) ==
 \* exactly the occurrences of w / of revcomp(w); size 0 iff w does not occur
 BiObservedOK(w, iv, t) ==
     /\ Len(iv.f) = 2 /\ Len(iv.r) = 2
+    /\ SerOK(iv, Len(w))
     /\ LET size == iv.f[2] - iv.f[1] IN
        /\ size >= 0 /\ iv.r[2] - iv.r[1] = size
        /\ IF size = 0 THEN ~Occurs(w, t)
